@@ -246,7 +246,8 @@ def gen_control():
     d = [("int32_t", "a", "input"), ("int32_t", "b", "input"), ("int64_t", "r", "local")]
     for st in ["r = RdV = a;", "RdV = RxV = RyV = RsV;", "r = RdV = RxV = RyV = a;", "RdV = RxV = i++;", "RdV = RxV = clz32(a);", "RdV = RxV = get_npc(pkt);", "r = b = RdV = a + b;", "RdV = RxV = ({ r = a; r + 1; });"]:
         out.append(P(d, st, ("chain", st)))
-    bodies = ["r = a;", "r = a + b; RdV = r;", "mem_store_u32(a, b);", "JUMP(a);", "r = clz32(a);", "r = a++;", "{ r = b; }", ";", "if (b) { r = a; }", "for (i = 0; i < 2; i++) { r += a; }"]
+    bodies = ["r = a;", "r = a + b; RdV = r;", "mem_store_u32(a, b);", "JUMP(a);", "r = clz32(a);", "r = a++;", "{ r = b; }", ";", "if (b) { r = a; }", "for (i = 0; i < 2; i++) { r += a; }",
+              "cancel_slot;", "STORE_SLOT_CANCELLED(pkt, slot);", 'fatal("C is broken");', "trap(0, 1);"]
     for x in bodies:
         out.append(P(d, "if (a) { %s }" % x, ("if", x)))
         out.append(P(d, "if (a < b) { %s } else { r = b; }" % x, ("ifelse", x)))
